@@ -12,6 +12,8 @@
     order the specification prescribes.
 """
 import concurrent.futures as cf
+import os
+import subprocess
 import json
 import random
 
@@ -34,6 +36,9 @@ PROGRAMS = [
                                       "res /things/{ 'id int }/{ 'sub str }?{ 'p1 str, 'p2 int, 'p3 bool } on op;\nres /other on get -> <{}>;\nres /third on get -> <{}>;\nres /fourth on get -> <{}>;\n"}),
     ("enums-and-facets", {"main.oal": "let color = str `enum: [red, green, blue, black], pattern: \"^[a-z]+$\", minLength: 3, maxLength: 5`;\nlet n = num `minimum: 0, maximum: 9.5, multipleOf: 0.5, example: 2`;\n"
                               "let @pal = { 'c1! color, 'c2! color, 'c3! color, 'n n } `title: \"t\", description: \"d\"`;\nres /pal on get -> <@pal> `description: \"palette\"`;\n"}),
+    ("string-formats", {"main.oal": "let @event = { 'id! int `minimum: 1`, 'createdAt! str `format: date-time`, 'day str `format: date`, 'at str `format: time`, "
+                                    "'uid str `format: uuid`, 'mail str `format: email`, 'kind str `enum: [created, deleted]` };\n"
+                                    "res /events?{ 'since str `format: date-time`, 'on str `format: date` } on get -> <status=200, headers={ 'Last-Modified str `format: date-time` }, [@event]>;\n"}),
     ("two-modules", {"main.oal": 'use "m.oal";\nuse "n.oal" as q;\n# examples: { m1: "1", m2: "2", m3: "3" }\nlet @top = { \'t t, \'u q.@u };\nres / on get -> <@top>;\n',
                      "m.oal": "let t = rec x { 'kids [x] };\n", "n.oal": '# examples: { n1: "1", n2: "2", n3: "3" }\nlet @u = { \'w num };\n'}),
 ]
@@ -83,19 +88,36 @@ def run(tier):
     chk.notes["model_selftest"] = "Determinism_pinned.cfg (examples in a randomly seeded hash map): TLC %s" % ("finds two eligible entries" if not rp.ok else "FAILED to find the nondeterminism")
     if rp.ok:
         raise common.ToolError("self-test: TLC no longer finds the nondeterminism of the hashed discipline")
+    for cfgname, what in (("Determinism_pinned_counter.cfg", "scope ids from a process-wide counter"), ("Determinism_pinned_clock.cfg", "a default computed from the wall clock")):
+        rq = run_tlc("Determinism", cfgname, workers=2, timeout=300)
+        chk.add_tlc(rq)
+        if rq.ok:
+            raise common.ToolError("self-test: TLC no longer finds the dependence on ambient state (%s)" % what)
+        chk.notes["model_selftest"] += "; %s (%s): TLC finds AmbientFree violated" % (cfgname, what)
     progs_ = list(PROGRAMS)
     base = [(n, {"main.oal": t}) for n, t in corpus.texts() if "use " not in t and len(t) < 3000]
     rng.shuffle(base)
     progs_ += base[:6 if tier == "quick" else 60]
     nproc = 8 if tier == "quick" else 48
 
+    # the wall clock: a shim (driver/faketime.c, LD_PRELOAD) shifts the time the process sees - by more than a year, by a
+    # second - for the last runs of every program
+    shim = os.path.join(common.workdir("c06-shim"), "faketime.so")
+    os.makedirs(os.path.dirname(shim), exist_ok=True)
+    cc = subprocess.run(["clang", "-shared", "-fPIC", "-O1", "-w", "-o", shim, os.path.join(os.path.dirname(os.path.abspath(__file__)), "faketime.c"), "-ldl"],
+                        stdout=subprocess.PIPE, stderr=subprocess.STDOUT, text=True)
+    if cc.returncode != 0:
+        raise common.ToolError("cannot build the wall-clock shim: %s" % cc.stdout[-400:])
+    shifts = [None] * (nproc - 3) + [34567890 + 1, 86400 * 3 + 7, -86400 * 200]
+
     def one(p):
         name, files = p
         import threading
         d = common.workdir("c06-%s-%d" % ("".join(ch for ch in name if ch.isalnum())[:30], threading.get_ident() % 100000))
         outs = []
-        for _ in range(nproc):
-            r_ = cli.run(files, workdir=d)
+        for k in range(nproc):
+            sh = shifts[k]
+            r_ = cli.run(files, workdir=d, env_extra=None if sh is None else {"LD_PRELOAD": shim, "OALV_TIME_OFFSET": str(sh)})
             outs.append((r_["exit"], r_["target"]))
         return outs
     with cf.ThreadPoolExecutor(max_workers=8) as ex:
@@ -114,9 +136,11 @@ def run(tier):
         nontrivial += 1
         if len(texts) > 1:
             ts = sorted(texts)
-            # which collection differs?
-            what = "examples" if examples_order(ts[0]) != examples_order(ts[1]) else "other"
-            chk.violation("C06|bytes-differ|%s" % what, "%s: %d different YAML texts in %d fresh processes (the order of `%s` entries differs)" % (name, len(texts), nproc, what),
+            # which collection differs?  or only the runs under a shifted wall clock?
+            unshifted = set(o[1] for o, sh in zip(outs, shifts) if sh is None)
+            what = "wall-clock" if len(unshifted) == 1 else ("examples" if examples_order(ts[0]) != examples_order(ts[1]) else "other")
+            chk.violation("C06|bytes-differ|%s" % what, "%s: %d different YAML texts in %d fresh processes (%s)" % (
+                              name, len(texts), nproc, "the runs under a shifted wall clock differ" if what == "wall-clock" else "the order of `%s` entries differs" % what),
                           {"files": files, "variants": ts[:2]})
             continue
         chk.cov["traces_validated_against_impl"] += 1
@@ -145,7 +169,7 @@ def run(tier):
     chk.cov["evaluations"] = len(progs_) * nproc + len(PROGRAMS) * 3
     chk.cov["distinct_nontrivial"] = nontrivial
     chk.cov["rule"] = ("8 directed programs exercising every collection on the output path with 2-5 entries (examples at three levels, references, ranges, methods, rec in "
-                       "functions, two imported modules) + accepted single-file programs of the repository corpus; each compiled by %d fresh oal-cli processes and 3 "
+                       "functions, two imported modules) + accepted single-file programs of the repository corpus; each compiled by %d fresh oal-cli processes (the last three under a wall clock shifted by +400 days, +3 days, -200 days through an LD_PRELOAD shim) and 3 "
                        "times in one process; non-trivial = accepted programs" % nproc)
     chk.sample({"program": PROGRAMS[0][1], "processes": nproc})
     chk.assumptions = [
